@@ -52,8 +52,23 @@ def normalise(dem, crate="naijascript"):
 def collect(repo=None, release=False):
     """Returns ({normalised name: max frame bytes over instances}, {raw demangled: bytes}, meta)."""
     repo = repo or factsmod.REPO
+    th = factsmod.tree_hash(repo)
+    cache_file = os.path.join(factsmod.CACHE, "facts", th, "frames-%s.json" % ("release" if release else "dev"))
+    if os.path.exists(cache_file):
+        with open(cache_file) as fh:
+            d = json.load(fh)
+        return d["sizes"], d["raw"], d["meta"]
     target = os.path.join(factsmod.CACHE, "target-ss")
     os.makedirs(target, exist_ok=True)
+    # cargo does not refresh the uplifted copy of a fresh artifact: remove it so that the file read below is the one
+    # produced (or re-linked) for *this* tree
+    for f in glob.glob(os.path.join(target, "release" if release else "debug", "libnaijascript*.rlib")):
+        os.remove(f)
+    fp = os.path.join(target, "release" if release else "debug", ".fingerprint")
+    if os.path.isdir(fp):
+        for dd in os.listdir(fp):
+            if dd.startswith("naijascript-"):
+                shutil.rmtree(os.path.join(fp, dd), ignore_errors=True)
     env = dict(os.environ, CARGO_TARGET_DIR=target, CARGO_NET_OFFLINE="true",
                RUSTFLAGS="-Z emit-stack-sizes -C symbol-mangling-version=v0 -Awarnings")
     env.pop("RUSTC_WRAPPER", None)
@@ -107,4 +122,10 @@ def collect(repo=None, release=False):
     for name, sz in raw.items():
         k = normalise(name)
         sizes[k] = max(sizes.get(k, 0), sz)
-    return sizes, raw, dict(objects=len(objs), functions=len(raw), rlib=os.path.basename(rlib), profile="release" if release else "dev")
+    meta = dict(objects=len(objs), functions=len(raw), rlib=os.path.basename(rlib), profile="release" if release else "dev", tree_hash=th)
+    if os.path.isdir(os.path.dirname(cache_file)):
+        tmpf = cache_file + ".tmp%d" % os.getpid()
+        with open(tmpf, "w") as fh:
+            json.dump(dict(sizes=sizes, raw=raw, meta=meta), fh)
+        os.rename(tmpf, cache_file)
+    return sizes, raw, meta
